@@ -680,7 +680,7 @@ def nontrivial(c):
 
 def main(run, args):
     import checklib
-    n = 2500 if run.tier == "quick" else 40000
+    n = 2500 if run.tier == "quick" else 60000
     if args.cases:
         n = args.cases
     return checklib.standard(run, ID, THEOREMS, IMPORTS, "codec", gen_cases, to_coq, n, nontrivial=nontrivial,
